@@ -1,6 +1,7 @@
 import CssVerif.Lemmas.EncLadder
 import CssVerif.Lemmas.EncEscape
 import CssVerif.Lemmas.EncSheet
+import CssVerif.Lemmas.EncTok
 import CssVerif.Props.C07
 /-!
 # C08 — sheet/import encoding precedence; serialised bytes decodable and lossless
@@ -8,7 +9,8 @@ import CssVerif.Props.C07
 Property theorems only (helpers: `Lemmas/EncLadder.lean`, `Lemmas/EncEscape.lean`, `Lemmas/EncSheet.lean`).
 Models: `Model/EncLadder.lean` (`_readUrl`, `_setHref`, `_resolveImport`, `_setCssTextWithEncodingOverride`,
 `parseString`, `parseUrl`), `Model/EncSheet.lean` (`encoding`, `insertRule`, `deleteRule`), `Model/EncEscape.lean`
-(`_escapecss`, the tokenizer's `unicodesub`), tied to the source by the correspondences of `tools/harness/c08.py`.
+(`_escapecss`, the tokenizer's `unicodesub`), `Model/EncTok.lean` with C05's tokenizer model `Model/Tok.lean` over the
+regenerated production table (T8.4c), tied to the source by the correspondences of `tools/harness/c08.py` / `c08_tok.py`.
 The codecs of the Python runtime, the fetcher and the sheet parser are parameters (`World`), so every theorem below
 holds for all of them.
 -/
@@ -785,5 +787,188 @@ example : (match parseUrl demoWorldUrl 5 [9] none with
     | .ok (some p) => some (p.encoding, p.out.recs.map (fun r => (r.depth, r.enctype, r.used, r.parentArg, r.reported)))
     | _ => none)
     = some ([0x72], [(1, 4, [0x72], some [0x72], [0x72]), (2, 1, [0x68], some [0x72], [0x68])]) := by rfl
+
+
+/-! ## T8.4c token boundaries: `escapecss` against the regenerated tokenizer productions
+
+`Gen/C05Productions.lean` is regenerated from `cssproductions.py` / `tokenize2.py` on every run; `Tok.scan` tries the
+productions in order with `Re.first` (= `pattern.match`). The theorems say that the match a production finds on the
+text from `pos` on is found, at the mapped position `elen`, on the escaped text — and that there is none if there was
+none — so the escaped text is cut into the same tokens. Guard: no character to be escaped directly after a backslash
+(the region of the known finding C08-escaped-unrepresentable, as a property of the text). -/
+section boundaries
+open CssVerif.EncTok
+open CssVerif.Gen.C05 (productions reIDENT reFUNCTION reDIMENSION reHASH reATKEYWORD reSTRING reINVALID reCHAR reS
+  rePERCENTAGE reNUMBER)
+
+/-- the productions whose first match is proved to be kept on EVERY guarded text: all but FUNCTION (kept wherever the
+tokenizer tries it: `escapecss_keeps_function`) and CHAR (kept wherever it is reached: `escapecss_keeps_char`) -/
+def keptProductions : List String :=
+  ["S", "URI", "UNICODE-RANGE", "IDENT", "DIMENSION", "PERCENTAGE", "NUMBER", "HASH", "COMMENT", "STRING", "INVALID",
+   "ATKEYWORD", "INCLUDES", "DASHMATCH", "PREFIXMATCH", "SUFFIXMATCH", "SUBSTRINGMATCH", "CDO", "CDC"]
+
+/-- every ASCII-compatible encoding gives a `SyntaxRep` -/
+theorem asciiRep_syntax (rep : Nat → Bool) (ha : AsciiRep rep) : SyntaxRep rep := by
+  refine ⟨ha _ (by decide), ha _ (by decide), ?_, ?_, ⟨ha _ (by decide), ha _ (by decide), ha _ (by decide),
+    ha _ (by decide)⟩⟩
+  · intro c h
+    simp only [isUpperHex, Bool.or_eq_true, Bool.and_eq_true, decide_eq_true_eq] at h
+    exact ha c (by omega)
+  · intro c h
+    unfold hexVal? at h
+    apply ha
+    split at h
+    · omega
+    · split at h
+      · omega
+      · split at h
+        · omega
+        · simp at h
+
+/-- T8.4c `escapecss_keeps_first_match_partial`: for every production of the regenerated table except FUNCTION and
+CHAR — S, URI, UNICODE-RANGE, IDENT, DIMENSION, PERCENTAGE, NUMBER, HASH, COMMENT, STRING, INVALID, ATKEYWORD and the
+fixed lexemes — every target encoding that can represent ASCII, and every guarded text `s` (the text from the
+tokenizer's `pos` on): `pattern.match` on the escaped text finds the image of what it found on the original, and
+nothing if it found nothing. So a non-ASCII character replaced by `\HEX␠` inside a token keeps the token's boundaries,
+and no token appears where there was none. (IDENT … ATKEYWORD and the ASCII-only productions through the syntactic
+checker `firstPres`; STRING, INVALID, COMMENT, URI, UNICODE-RANGE by the hand proofs of `Lemmas/EncTok.lean`.)
+
+`_partial`: the guard is "no character to be escaped directly after ANY backslash"; the FULL statement has the guard
+of `escapecss_lossless_by_kind` (after an UNESCAPED backslash), which is not a property of the text alone but of where
+the tokens start. Texts with `\\ä` (an even run of backslashes before a character to be escaped) are the gap; the
+harness explores them (`E:escaped:even`). -/
+theorem escapecss_keeps_first_match_partial (rep : Nat → Bool) (ha : AsciiRep rep) :
+    ∀ p ∈ productions, p.1 ∈ keptProductions → ∀ s : List Nat, guard rep s = true → (∀ c ∈ s, c ≤ maxUnicode) →
+      p.2.first (escape rep s) = (p.2.first s).map (elen rep s) := by
+  intro p hp hk s hg hm
+  have hne : ∀ n ∈ keptProductions, n ≠ "FUNCTION" ∧ n ≠ "CHAR" := by decide
+  exact productions_firstPres rep ha p hp (hne p.1 hk).1 (hne p.1 hk).2 s ⟨hg, hm⟩
+
+/-- T8.4c `escapecss_keeps_token_type_partial`: the production scan of the tokenizer (`tokenize2.py:174-202`: the
+productions in order, `pattern.match`, IDENT skipped in front of `(` unless it is `and`, the unterminated comment of
+full-sheet mode) on the escaped text answers with the SAME production and the mapped length — the token that starts at
+`pos` has the same type and the same (escaped) source on both texts; in full-sheet mode an unterminated comment is
+completed on both. For every guarded text from `pos` on, both modes, comments on or off.
+
+`_partial` for the same reason as above (guard "after any backslash"). What the tokenizer does with the hit afterwards
+— the full-sheet completions of INVALID / `url(` (`complete`), the value and the at-keyword symbol (`valueOf`; values:
+T8.4b), line and column — is not part of this statement; the main loop as a whole is compared differentially
+(harness part E) and by the reparse oracle. -/
+theorem escapecss_keeps_token_type_partial (rep : Nat → Bool) (ha : AsciiRep rep) (full doC : Bool) (s : List Nat)
+    (hg : guard rep s = true) (hm : ∀ c ∈ s, c ≤ maxUnicode) :
+    Tok.scan full doC (escape rep s) productions = mapScan rep s (Tok.scan full doC s productions) :=
+  scan_escape rep ha full doC s ⟨hg, hm⟩
+
+/-- FUNCTION is IDENT followed by `(` (`tokenize2.py:196-202` skips an IDENT that is directly followed by `(`): it is
+kept where the identifier in front of the parenthesis is, and absent where there is no identifier -/
+theorem escapecss_keeps_function (rep : Nat → Bool) (ha : AsciiRep rep) (s : List Nat) (hg : guard rep s = true)
+    (hm : ∀ c ∈ s, c ≤ maxUnicode) :
+    (∀ l, reIDENT.first s = some l → s[l]? = some 40 →
+      reFUNCTION.first s = some (l + 1) ∧ reFUNCTION.first (escape rep s) = some (elen rep s (l + 1))) ∧
+    (reIDENT.first s = none → reFUNCTION.first s = none ∧ reFUNCTION.first (escape rep s) = none) := by
+  have hI := firstPres_sound rep ha reIDENT (by decide) s ⟨hg, hm⟩
+  constructor
+  · intro l hl hp
+    refine ⟨function_first_some hl hp, ?_⟩
+    rw [hl] at hI
+    have hlt : l < s.length := by
+      rcases Nat.lt_or_ge l s.length with h | h
+      · exact h
+      · rw [List.getElem?_eq_none h] at hp; cases hp
+    have hd : s.drop l = 40 :: s.drop (l + 1) := by
+      rw [List.drop_eq_getElem_cons hlt]
+      congr 1
+      rw [List.getElem?_eq_getElem hlt] at hp
+      exact Option.some.inj hp
+    have h40 : rep 40 = true := ha 40 (by decide)
+    have hp' : (escape rep s)[elen rep s l]? = some 40 := by
+      have := drop_elen rep s l
+      rw [hd, escape_cons_rep _ h40] at this
+      rw [← List.head?_drop, this]; rfl
+    rw [function_first_some hI hp', elen_add, hd, elen_one_rep _ h40]
+  · intro hn
+    rw [hn] at hI
+    exact ⟨function_first_none hn, function_first_none hI⟩
+
+/-- CHAR (`[^"']`, the last production) is only reached when the text does not start with a character that has to be
+escaped (such a character is `nonascii`, which starts an IDENT): there it is kept -/
+theorem escapecss_keeps_char (rep : Nat → Bool) (s : List Nat) (hg : guard rep s = true) (hm : ∀ c ∈ s, c ≤ maxUnicode)
+    (hh : ∀ c t, s = c :: t → rep c = true) :
+    reCHAR.first (escape rep s) = (reCHAR.first s).map (elen rep s) :=
+  firstPresH_cls rep _ _ s ⟨hg, hm⟩ hh
+
+/-- a character that has to be escaped always starts an identifier: IDENT matches there, on both texts -/
+theorem unrepresentable_starts_ident (rep : Nat → Bool) (ha : AsciiRep rep) (c : Nat) (t : List Nat)
+    (hc : rep c = false) (hg : guard rep (c :: t) = true) (hm : ∀ x ∈ c :: t, x ≤ maxUnicode) :
+    ∃ l, 0 < l ∧ reIDENT.first (c :: t) = some l ∧
+      reIDENT.first (escape rep (c :: t)) = some (elen rep (c :: t) l) := by
+  have hI := firstPres_sound rep ha reIDENT (by decide) (c :: t) ⟨hg, hm⟩
+  have h128 := unrep_ge ha hc
+  have hcm : c ≤ maxUnicode := hm c List.mem_cons_self
+  have hne : reIDENT.ms (c :: t) ≠ [] := by
+    have hin : Tok.inR [(128, 0x10FFFF)] c = true := by
+      simp only [Tok.inR, List.any_cons, List.any_nil, Bool.or_false, Bool.and_eq_true, decide_eq_true_eq]
+      exact ⟨h128, hcm⟩
+    have h1 : Tok.nmstartRe.ms (c :: t) = [1] :=
+      Tok.exactlyOne_sound [(128, 0x10FFFF)] c hin Tok.nmstartRe (by decide) t
+    rw [Tok.reIDENT_eq, Tok.seq_ms_left_zero (Tok.dashOpt_ms c t (by omega))]
+    exact Tok.seq_ne_nil (by rw [h1]; simp) (fun s' => Tok.starMs_ne_nil _ _ _ _)
+  cases hf : reIDENT.first (c :: t) with
+  | none =>
+    unfold Re.first at hf
+    cases hm' : reIDENT.ms (c :: t) with
+    | nil => exact absurd hm' hne
+    | cons y ys => rw [hm'] at hf; cases hf
+  | some l =>
+    rw [hf] at hI
+    exact ⟨l, Re.first_pos reIDENT (by decide) _ l hf, rfl, hI⟩
+
+/-- the text guard implies the value guards of T8.4b: on guarded token texts the value read is the same, whatever the
+kind of the token (outside comments / at-keywords) -/
+theorem guard_lossless (rep : Nat → Bool) (t : List Nat) (hg : guard rep t = true) :
+    lossless rep .name t = true ∧ lossless rep .str t = true := guard_ok rep t hg
+
+/-- T8.4b + T8.4c for one identifier: a text that is one IDENT (the production matches all of it) is, escaped, again
+one IDENT, and the tokenizer reads the same name from it -/
+theorem ident_token_roundtrip (rep : Nat → Bool) (ha : AsciiRep rep) (t : List Nat) (hg : guard rep t = true)
+    (hm : ∀ c ∈ t, c ≤ maxUnicode) (hI : reIDENT.first t = some t.length) :
+    reIDENT.first (escape rep t) = some (escape rep t).length ∧ unescape (escape rep t) = unescape t :=
+  ⟨firstPres_whole (firstPres_sound rep ha reIDENT (by decide)) t ⟨hg, hm⟩ hI,
+   (escapecss_lossless_iff rep (asciiRep_syntax rep ha) t hm).mpr (guard_ok rep t hg).1⟩
+
+/-- the same for a string token -/
+theorem string_token_roundtrip (rep : Nat → Bool) (ha : AsciiRep rep) (t : List Nat) (hg : guard rep t = true)
+    (hm : ∀ c ∈ t, c ≤ maxUnicode) (hI : reSTRING.first t = some t.length) :
+    reSTRING.first (escape rep t) = some (escape rep t).length ∧ unescapeStr (escape rep t) = unescapeStr t :=
+  ⟨firstPres_whole (string_firstPres rep ha) t ⟨hg, hm⟩ hI,
+   (escapecss_lossless_str_iff rep (asciiRep_syntax rep ha) t hm).mpr (guard_ok rep t hg).2⟩
+
+theorem repAscii_ascii : AsciiRep repAscii := by intro c h; simp [repAscii, h]
+
+/-! non-vacuity and witnesses (evaluated by the kernel on the regenerated productions) -/
+/-- `äb ` (guarded): IDENT takes 2 characters; escaped `\E4 b `: IDENT takes 5 = `elen 2` -/
+example : guard repAscii [0xE4, 0x62, 0x20] = true ∧ reIDENT.first [0xE4, 0x62, 0x20] = some 2 ∧
+    reIDENT.first (escape repAscii [0xE4, 0x62, 0x20]) = some 5 ∧ elen repAscii [0xE4, 0x62, 0x20] 2 = 5 := by decide
+/-- `"ä"x`: STRING takes 3; escaped `"\E4 "x`: 6 -/
+example : guard repAscii [0x22, 0xE4, 0x22, 0x78] = true ∧ reSTRING.first [0x22, 0xE4, 0x22, 0x78] = some 3 ∧
+    reSTRING.first (escape repAscii [0x22, 0xE4, 0x22, 0x78]) = some 6 := by decide
+/-- `/*ä**/x`: COMMENT takes 6; escaped `/*\E4 **/x`: 9 -/
+example : Gen.C05.reCOMMENT.first [0x2F, 0x2A, 0xE4, 0x2A, 0x2A, 0x2F, 0x78] = some 6 ∧
+    Gen.C05.reCOMMENT.first (escape repAscii [0x2F, 0x2A, 0xE4, 0x2A, 0x2A, 0x2F, 0x78]) = some 9 := by decide
+/-- the guard is needed (C08-escaped-unrepresentable at token level): `\ä;` is one IDENT of 2 characters, written
+`\\E4 ;` it is the IDENT `\\E4` of 4 characters followed by white space — the token boundary moved -/
+example : guard repAscii [0x5C, 0xE4, 0x3B] = false ∧ reIDENT.first [0x5C, 0xE4, 0x3B] = some 2 ∧
+    elen repAscii [0x5C, 0xE4, 0x3B] 2 = 5 ∧ reIDENT.first (escape repAscii [0x5C, 0xE4, 0x3B]) = some 4 := by decide
+/-- `url(ä)x`: URI takes 6; escaped `url(\E4 )x`: 9 -/
+example : Gen.C05.reURI.first [0x75, 0x72, 0x6C, 0x28, 0xE4, 0x29, 0x78] = some 6 ∧
+    Gen.C05.reURI.first (escape repAscii [0x75, 0x72, 0x6C, 0x28, 0xE4, 0x29, 0x78]) = some 9 := by decide
+/-- `ä(1)`: IDENT is skipped, FUNCTION hits with 2 characters; escaped `\E4 (1)`: FUNCTION with 5 -/
+example : Tok.scan false true [0xE4, 0x28, 0x31, 0x29] productions = .hit "FUNCTION" 2 ∧
+    Tok.scan false true (escape repAscii [0xE4, 0x28, 0x31, 0x29]) productions = .hit "FUNCTION" 5 := by decide
+/-- a sub-pattern is not kept although URI is: `{U}` (`u|\\0{0,4}(55|75)…`) does not match `ա` (U+0561 is fine, U+0550
+is not) but matches the head `\55` of its escape `\550 ` -/
+example : escape repAscii [0x550] = [0x5C, 0x35, 0x35, 0x30, 0x20] ∧
+    Gen.C05.reURI.first [0x550] = none ∧ Gen.C05.reURI.first (escape repAscii [0x550]) = none := by decide
+end boundaries
 
 end CssVerif.C08
